@@ -29,7 +29,7 @@ REGISTRATION = {
             "requirements, OLLAMA_GPU_OVERHEAD) enter the model as inputs; the driver recomputes them with the "
             "same functions the estimator calls. Flash attention / KV cache type are off in the driver (they "
             "only change those inputs). The allocation theorems hold under an explicit no-wrap-around guard on "
-            "the derived inputs; without it the clause is false of the code (finding W1).",
+            "the derived inputs; without it the clause is false of the code (finding W1, repaired in /repo by cdbdf6013, and the remaining wraps W2 for figures near 2^64).",
 }
 
 MODULES = ["OllamaVerif.Properties.C16"]
